@@ -1172,6 +1172,17 @@ impl Builder {
         self
     }
 
+    /// Sets the first stream ID to something other than 1 (verification builds).
+    #[cfg(all(feature = "verif", not(feature = "unstable")))]
+    pub fn initial_stream_id(&mut self, stream_id: u32) -> &mut Self {
+        self.stream_id = stream_id.into();
+        assert!(
+            self.stream_id.is_client_initiated(),
+            "stream id must be odd"
+        );
+        self
+    }
+
     /// Sets the first stream ID to something other than 1.
     #[cfg(feature = "unstable")]
     pub fn initial_stream_id(&mut self, stream_id: u32) -> &mut Self {
@@ -1733,5 +1744,21 @@ impl proto::Peer for Peer {
         *response.headers_mut() = fields;
 
         Ok(response)
+    }
+}
+
+#[cfg(feature = "verif")]
+impl<T, B> Connection<T, B>
+where
+    B: Buf + Send + 'static,
+{
+    /// Verification builds only: read-only statistics handle.
+    pub fn verif_stats_handle(&self) -> crate::verif::StatsHandle {
+        self.inner.verif_stats_handle()
+    }
+
+    /// Verification builds only: codec buffer statistics.
+    pub fn verif_codec_stats(&self) -> crate::verif::CodecStats {
+        self.inner.verif_codec_stats()
     }
 }
